@@ -38,6 +38,7 @@ struct Node {
   bool generated_by_dep_loader() const { return generated_by_dep_loader_; }
   void set_generated_by_dep_loader(bool value) { generated_by_dep_loader_ = value; }
   int id() const { return id_; }
+  void set_id(int id) { id_ = id; }
   std::vector<Edge*>& out_edges() const { return const_cast<Node*>(this)->out_edges_; }
   std::vector<Edge*>& validation_out_edges() const { return const_cast<Node*>(this)->validation_out_edges_; }
   void AddOutEdge(Edge* edge) { out_edges_.push_back(edge); }
